@@ -479,6 +479,23 @@ def channel_axis_first(check, prog):
                     and itb[2][1] and itb[2][1][0] == ILL:
                 good = True
         verdicts.append((good, why))
+    # the candidate axes: coordinates that label an axis.  A scalar coordinate
+    # (the z of one plane taken from a stack) has no values to iterate over
+    comps = {x for o in res.returns for t, p in o.cond for x in subterms(t)
+             if x[0] == 'comp' and x[1] == 'dict' and len(x[3]) == 1}
+    for cpr in sorted(comps, key=str):
+        target, iterable, conds = cpr[3][0]
+        if iterable == ('attr', schema, 'coords'):
+            guarded = any(any(y[0] == 'attr' and y[2] in ('ndim', 'shape', 'size', 'dims')
+                              for y in subterms(cd)) for cd in conds)
+            check.require(guarded, 'S3-scalar-coordinates', 'dict_to_array candidate axes',
+                          'only coordinates with an axis are candidates', loc,
+                          fail_detail='every coordinate of the schema is listed with '
+                          'sorted(list(coordinate.values)): an image with a scalar '
+                          'coordinate -- one plane of a colour stack, img.isel(z=0) -- '
+                          'raises TypeError (iteration over a 0-d array) in '
+                          'update_metadata and calc_holo as soon as a per-channel '
+                          'dictionary is given')
     check.need('dict_to_array matches of keys against a coordinate', len(verdicts), 1,
                'S3-dict-to-array', 'dict_to_array matches',
                'a dict becomes an array along the dimension whose coordinates equal '
